@@ -344,3 +344,10 @@ Proof.
   intros b m D. destruct (decode_top_stable RW_c 26 b m RW_good) as [W _]; [minok|exact D|].
   split; [exact W|]. destruct (RW_lossless m W) as (b' & E & D'). exists b'. split; assumption.
 Qed.
+
+(** Route.Encode (the stand-alone encoder) writes exactly what the route codec inside ROUTE_ADVERTISE writes *)
+Lemma encode_Route_is_codec : forall r, encode_Route r = Some (enc Route_c r).
+Proof.
+  intros [f [pl [pre m]]]. unfold encode_Route. cbn [enc Route_c depc pairc fst snd].
+  rewrite prefix_body_enc. reflexivity.
+Qed.
